@@ -74,7 +74,7 @@ impl WatchexecFilterer {
 		let workdir = args.command.workdir.clone().unwrap();
 
 		let ignore_files = if args.filtering.no_discover_ignore {
-			Vec::new()
+			crate::dirs::explicit_ignores(args)
 		} else {
 			let vcs_types = crate::dirs::vcs_types(&project_origin).await;
 			crate::dirs::ignores(args, &vcs_types).await?
